@@ -20,8 +20,8 @@ def k_of(name):
 class Hook:
     """Recording hook (deep-copyable: the shared log travels with the Sut)."""
 
-    def __init__(self, name, log, inner=None, add=None, fresh=False):
-        self.name, self.log, self.inner, self.add, self.fresh = name, log, inner, add, fresh
+    def __init__(self, name, log, inner=None, add=None, fresh=False, keep=None):
+        self.name, self.log, self.inner, self.add, self.fresh, self.keep = name, log, inner, add, fresh, keep
 
     def __call__(self, origin, target, params, state):
         before = {k: v for k, v in params.items()}
@@ -29,6 +29,9 @@ class Hook:
             params = type(params)(params)      # a hook may return a new mapping instead of mutating its argument
         if self.inner is not None:
             params = self.inner(origin, target, params, state)
+        if self.keep is not None:
+            # a filter: hands back a new mapping holding only the listed words (possibly none at all)
+            params = type(params)({k: v for k, v in params.items() if k.upper() in self.keep})
         if self.add:
             params.update(**self.add)
         self.log.append((self.name, tuple(origin), tuple(target), before, {k: v for k, v in params.items()}))
@@ -59,6 +62,7 @@ class C20System(BuilderSystem):
             "rec": Hook("rec", st.log),
             "addF": Hook("addF", st.log, add={"F": 1500}),
             "addQ": Hook("addQ", st.log, add={"Q": 7}, fresh=True),
+            "onlyF": Hook("onlyF", st.log, keep=("F",)),
             "ext1": Hook("ext1", st.log, inner=extrusion_hook(*GEOM["ext1"])),
             "ext2": Hook("ext2", st.log, inner=extrusion_hook(*GEOM["ext2"])),
         }
@@ -78,7 +82,7 @@ class C20System(BuilderSystem):
                 return [dx, dy] if dz is None else [dx, dy, dz]
             return [p.x + dx, p.y + dy] if dz is None else [p.x + dx, p.y + dy, p.z + dz]
         ops = []
-        for h in ("rec", "addF", "ext1", "ext2", "addQ"):
+        for h in ("rec", "addF", "ext1", "ext2", "addQ", "onlyF"):
             ops.append(["add_hook", [h]])
             ops.append(["remove_hook", [h]])
         ops += [["move", [], {"x": 3.0}], ["move", [], {"x": 1.0, "y": -1.0, "z": 0.5}], ["move", [], {"y": 2.5, "F": 900}],
